@@ -35,6 +35,7 @@ CHECK = dict(
     level_note="trusted: clang/gcc code generation, the C generator's UB-freedom, the ELF reader and ABI set-up of the harness",
 )
 
+MAX_REPORTS = 5
 TARGETS = ["arm", "thumb", "aarch64", "mips", "mipsel", "ppc"]
 OPTS = ["-O0", "-O1", "-O2", "-Os"]
 QUICK = dict(funcs=14, inputs=3, levels=1, gcc_funcs=0, nst=(5, 9))
@@ -89,23 +90,31 @@ def run_shard(params, rec):
             guests[k] = R.Guest(target, backend)
         return guests[k]
 
+    serial = [0]
+
     def build(funcs, name, targets_opts):
-        """compile a TU for the host and for every (target, opt): -> host, {(target,opt): elf functions}"""
-        src = os.path.join(workdir, "%s_%s.c" % (tag, name))
+        """compile a TU for the host and for every (target, opt): -> host, {(target,opt): elf functions}
+        (every shared object gets a fresh path: dlopen() returns the already loaded image for a known path)"""
+        serial[0] += 1
+        base = os.path.join(workdir, "%s_%d_%s" % (tag, serial[0], name))
+        src = base + ".c"
         with open(src, "w") as fd:
-            fd.write(HEADER + "".join(f.source(en, nm) for f, en, nm in funcs))
-        so = os.path.join(workdir, "%s_%s.so" % (tag, name))
+            fd.write(HEADER + "".join(funcs))
+        so = base + ".so"
         R.host_compile(src, so)
         host = R.Host(so)
+        os.unlink(so)
         objs = {}
         for (t, o) in targets_opts:
-            obj = os.path.join(workdir, "%s_%s_%s%s.o" % (tag, name, t, o))
+            obj = "%s_%s%s.o" % (base, t, o)
             R.cross_compile(src, t, o, obj)
             objs[(t, o)] = R.read_elf_functions(obj)
             os.unlink(obj)
+        os.unlink(src)
         return host, objs
 
     nfun = 0
+    nrep = {}
     chunk_id = 0
     gcc_left = cfg["gcc_funcs"]
     while nfun < cfg["funcs"]:
@@ -121,7 +130,7 @@ def run_shard(params, rec):
         levels = rng.sample(OPTS, cfg["levels"])
         tos = [(t, o) for t in TARGETS for o in levels]
         try:
-            host, objs = build([(f, None, f.name) for f in funcs], "c%d" % chunk_id, tos)
+            host, objs = build([f.source() for f in funcs], "c%d" % chunk_id, tos)
         except R.ToolError as exc:
             rec.count("tool_error")
             rec.extra.setdefault("tool_error", str(exc)[-400:])
@@ -148,7 +157,13 @@ def run_shard(params, rec):
                     g = guest(t, bk)
                     bad = run_function(R, rec, g, t, o, bk, f, ef, inputs, wants)
                     if bad is not None:
-                        report(R, rec, rng, build, guest, t, o, bk, f, bad, chunk_id)
+                        nrep[t] = nrep.get(t, 0) + 1
+                        if nrep[t] > MAX_REPORTS:
+                            # the reducer costs compiler runs: later disagreements of the same
+                            # target in this shard are only counted
+                            rec.count("disagreements_not_reduced:%s" % t)
+                        else:
+                            report(R, rec, rng, build, guest, t, o, bk, f, bad, chunk_id)
         del host
     for (t, bk), g in guests.items():
         pass
@@ -209,37 +224,65 @@ def report(R, rec, rng, build, guest, t, o, bk, f, bad, chunk_id):
     g = guest(t, bk)
     tries = 0
     last = dict(got=got, want=want, code=None)
+    # values of every statement variable on the failing input (host execution of a traced copy):
+    # a disabled statement is replaced by its value, so that only the operations whose *code*
+    # matters remain after reduction
+    try:
+        thost, _ = build([f.source(None, "tr", trace=True)], "trace", [])
+        consts = thost.trace("tr", a, b, c, mem, len(f.stmts))
+    except R.ToolError:
+        consts = None
 
-    def still_fails(en):
-        """same kind of disagreement with only the statements `en` enabled?"""
+    def failing_variants(variants):
+        """variants: list of sets of enabled statements; one TU holds them all.
+        Returns the indexes of the variants that show the same kind of disagreement."""
         nonlocal tries
         tries += 1
         try:
-            host, objs = build([(f, en, "r")], "red%d_%d" % (chunk_id, tries), [(t, o)])
+            host, objs = build([f.source(en, "r%d" % k, consts) for k, en in enumerate(variants)], "red", [(t, o)])
         except R.ToolError:
-            return False
-        ef = objs[(t, o)].get("r")
-        if ef is None or not R.usable(t, ef):
-            return False
-        w = host.call("r", f.ret == 64, a, b, c, mem)
-        r = g.call(ef["code"], ef["entry"], f.ret == 64, a, b, c, mem)
-        if got["outcome"] == "ok":
-            failing = r["outcome"] == "ok" and (r["ret"] != w[0] or r["mem"] != w[1])
-        else:
-            failing = r["outcome"] == got["outcome"]
-        if failing:
-            last.update(got=r, want=w, code=ef["code"], en=set(en))
-        return failing
+            return []
+        out = []
+        for k, en in enumerate(variants):
+            ef = objs[(t, o)].get("r%d" % k)
+            if ef is None or not R.usable(t, ef):
+                continue
+            w = host.call("r%d" % k, f.ret == 64, a, b, c, mem)
+            r = g.call(ef["code"], ef["entry"], f.ret == 64, a, b, c, mem)
+            if got["outcome"] == "ok":
+                failing = r["outcome"] == "ok" and (r["ret"] != w[0] or r["mem"] != w[1])
+            else:
+                failing = r["outcome"] == got["outcome"]
+            if failing:
+                out.append((k, r, w, ef["code"]))
+        return out
 
-    # greedy one-at-a-time reduction (functions are short)
-    changed = True
-    while changed and tries < 40:
-        changed = False
-        for i in sorted(enabled, reverse=True):
-            trial = enabled - {i}
-            if still_fails(trial):
-                enabled = trial
-                changed = True
+    n = len(f.stmts)
+    # round 0: the function itself (must still disagree once recompiled alone) and every single statement alone
+    singles = [set([i]) for i in range(n)]
+    res = failing_variants([set(enabled)] + singles)
+    idx = {k: (r, w, code) for k, r, w, code in res}
+    if 0 not in idx:
+        rec.count("disagreement_not_reproduced_alone:%s" % t)
+    single = [k for k in sorted(idx) if k > 0]
+    if single:
+        k = single[0]
+        enabled = set(singles[k - 1])
+        last.update(got=idx[k][0], want=idx[k][1], code=idx[k][2])
+    else:
+        if 0 in idx:
+            last.update(got=idx[0][0], want=idx[0][1], code=idx[0][2])
+        # greedy rounds: all "one statement less" variants in one TU per round
+        for _ in range(6):
+            order = sorted(enabled, reverse=True)
+            if len(order) <= 1:
+                break
+            res = failing_variants([enabled - {i} for i in order])
+            if not res:
+                break
+            k, r, w, code = res[0]
+            enabled = enabled - {order[k]}
+            last.update(got=r, want=w, code=code)
     ops = sorted(set(f.ops(enabled)))
     rec.count("disagreements:%s" % t)
     rec.count("reduction_compiles", tries)
@@ -247,7 +290,7 @@ def report(R, rec, rng, build, guest, t, o, bk, f, bad, chunk_id):
     if bk != "python":
         key = "[%s] " % bk + key
     wit = dict(target=t, opt=o, backend=bk, ops_all=f.ops(), ops_reduced=ops,
-               source=f.source(enabled, "r"), a="0x%x" % a, b="0x%x" % b, c="0x%x" % c,
+               source=f.source(enabled, "r", consts), a="0x%x" % a, b="0x%x" % b, c="0x%x" % c,
                mem={k: ["0x%x" % x for x in v] for k, v in mem.items()},
                what=describe(last["got"], last["want"]))
     if last["code"] is not None:
